@@ -256,7 +256,7 @@ def rule_r3(ctx: Ctx) -> None:
     for f in impls("choice"):
         p_ = f.params[1]
         bad = und = None
-        for n_ in (1, 2, 3):
+        for n_ in ((1, 2, 3) if ctx.tier != "thorough" else (1, 2, 3, 4, 5, 6)):
             items = syms("x", n_)
             try:
                 runs = explore(ctx, f.cls, f, {"self": Sym("self"), p_: list(items)})
@@ -284,10 +284,10 @@ def rule_r3(ctx: Ctx) -> None:
     for f in impls("shuffle"):
         p_ = f.params[1]
         bad = und = None
-        for n_ in (0, 1, 2, 3, 4):
+        for n_ in ((0, 1, 2, 3, 4) if ctx.tier != "thorough" else (0, 1, 2, 3, 4, 5)):
             items = syms("x", n_)
             try:
-                runs = explore(ctx, f.cls, f, {"self": Sym("self"), p_: list(items)})
+                runs = explore(ctx, f.cls, f, {"self": Sym("self"), p_: list(items)}, max_runs=800)
             except Budget:
                 und = "too many interpretations"
                 continue
